@@ -1,35 +1,58 @@
-import RsMatterVerif.Lemmas.AdminHist
+import RsMatterVerif.Lemmas.AdminCommit
 /-!
 # C11 — persisted state survives a crash and reloads to what was committed
 
-Model: `Model/Admin.lean`.  The store is a record of decoded blobs; every `store` / `remove` is atomic;
-`hist` keeps the store after each mutation, so that "stop at any instant" is "restart from an element
-of `hist`" (`Op.crash k`).
+Model: `Model/Admin.lean`.  The store is a record of decoded blobs; every `store` / `remove` call is
+atomic; `hist` keeps the store after each mutation, so that "stop at any instant" is "restart from
+an element of `hist`" (`Op.crash k`).  All history theorems are about histories WITHOUT the factory
+reset of the running node (`Op.freset ∉ ops`; the reset has its own theorems below) - the
+reset-before-start-up (`coldreset`) and the recovery reset (`fabrecover`) are inside.
 
-* `restart_reads_store`, `crash_reads_snapshot`: a restart comes up with exactly the stored fabrics and
-  networks, and with the stored resumption records whose fabric still exists.
-* `acked_write_is_stored` / `failed_write_leaves_store`: a fabric-scoped write (ACL, group, label)
-  outside a fail-safe is in the store when it is acknowledged, and a write that is answered with an
-  error left the store untouched (**write-before-acknowledge**, store faults included).
-* `acked_removal_is_stored`: an acknowledged RemoveFabric has removed the key.
-* `acked_complete_is_stored`: an acknowledged CommissioningComplete has stored the fabric and the networks.
-* `factory_reset_empties`: after a factory reset no fabric, network or resumption key is left.
-* `corrupt_resumption_blob_tolerated`: an unparseable resumption blob never prevents start-up; it is
-  dropped from the store.
-* `crash_prefix_or_mid_commit`: **every element of the store history** of ANY history (store faults
-  included, factory reset excluded) equals - on the fabric records and the networks - the store at an
-  operation boundary, or is the state between the two writes of a CommissioningComplete.
-  `C11_full_crash_prefix` (always a boundary) is refuted by the replay of the open finding
-  `C11-complete-crash-between-writes` (`C11_full_crash_prefix_false`) and proved under the decidable
-  exclusion `hasTwoWriteComplete … = false` (`crash_prefix_single_write`).
-* `boundary_store_is_committed`: at every operation boundary the store holds exactly what the
-  acknowledgements established for the fabric of an acknowledged write / removal / completion
-  (`acked_write_is_stored`, `acked_removal_is_stored`, `commit_is_joint` of C08).
+## the property-level statements (about `committedView`)
+`committedView : List Op → View` (`Lemmas/AdminCommit.lean`) is the abstract state made of exactly the
+changes that were ACKNOWLEDGED with success: a fabric-scoped write (ACL, group table, label, group
+key map) answered with success outside a fail-safe for its fabric commits the record of that fabric,
+an acknowledged CommissioningComplete commits the record of its fabric and the networks, an
+acknowledged RemoveFabric removes the record; nothing else changes it.
+* `boundary_store_is_committed`: after EVERY history the store holds exactly the committed view of
+  that history - any commands, any sessions, store faults at any write, restarts, earlier crashes.
+* `restart_comes_up_committed`: hence a restart after any history comes up with exactly the committed
+  view (every acknowledged change, nothing of an unacknowledged one).
+* `crash_comes_up_committed`: **every crash point, in order**: the node restarted from the store after
+  the `k`-th mutation comes up with the committed view of the LONGEST prefix of the history all of
+  whose store mutations are among the first `k` - for every `k` that does not lie strictly between
+  the two store mutations of a CommissioningComplete.  (For histories that only grow the store
+  history; with earlier crashes / resets inside: `crash_prefix_or_mid_commit`, set-level.)
+* the exclusions, each with its witness: (1) `noPartialCommit`: no CommissioningComplete whose SECOND
+  write fails for a fabric that has a stored record (what is left of the open finding
+  `C11-complete-store-failure`; witness `partial_commit_witness`) - the case of a fabric ADDED under
+  the fail-safe is repaired and INSIDE the theorems; (2) the crash points strictly inside a
+  CommissioningComplete (open finding `C11-complete-crash-between-writes`; witness
+  `C11_full_crash_committed_false`) - every history with successful commissionings is inside.
+* what `committedView` takes for the committed record: the record the node HOLDS when it
+  acknowledges (the implementation stores whole fabric records).  A change of an earlier write that
+  was answered with a store error stays in that record (`C08_full_coherent_always_false`) and is
+  committed by the next acknowledged write of the fabric - `dirty_write_is_flushed` shows it.
+
+## one step: write before acknowledge
+* `acked_write_is_stored` (ACL, group table, label, group key map; `acked_write_content` for what the
+  stored record contains), `failed_write_leaves_store`, `acked_removal_is_stored`,
+  `acked_complete_is_stored`: when the
+  command is answered with success the store already holds the change; when it is answered with an
+  error (or deferred under the fail-safe) the store is untouched - store faults included.
+
+## refinement facts (they restate what the model's `restartFrom` / `crash` / `corrupt` do; their
+value is the differential harness that compares the model with the real `Matter::startup`)
+* `restart_reads_store`, `crash_reads_snapshot`, `corrupt_resumption_blob_tolerated`.
+
+## factory reset
+* `factory_reset_empties` (one step, no store fault, stored indices in the key range `1..255`),
+  `faulty_factory_reset`.
 -/
 namespace C11
 open Admin
 
-/-! ## restart -/
+/-! ## restart (refinement facts) -/
 
 /-- the resumption records a restart keeps: the stored ones whose fabric still exists -/
 def storedResum (kv : KV) : List Resum :=
@@ -72,174 +95,91 @@ theorem corrupt_resumption_blob_tolerated (cfg : Cfg) (n : Node) :
   refine ⟨?_, ?_, ?_, h1, h2⟩
   all_goals simp [restartFrom]
 
-/-! ## write before acknowledge -/
+/-! ## write before acknowledge (one step) -/
 
-theorem storeFabric_cases (n : Node) (f : Fabric) :
-    ((storeFabric n f).2 = true ∧ (storeFabric n f).1.kv = n.kv.putFabric f ∧
-      (storeFabric n f).1.fabrics = n.fabrics ∧ (storeFabric n f).1.hist = n.kv.putFabric f :: n.hist) ∨
-    ((storeFabric n f).2 = false ∧ (storeFabric n f).1.kv = n.kv ∧ (storeFabric n f).1.fabrics = n.fabrics ∧
-      (storeFabric n f).1.hist = n.hist) := by
-  unfold storeFabric kvTick kvCommit
-  by_cases f0 : n.failIn = 0
-  · left; simp [f0]
-  · by_cases f1 : n.failIn = 1
-    · right; simp [f1]
-    · left; simp [f0, f1]
+/-- **Write-before-acknowledge for every fabric-scoped write** (ACL, group table, fabric label, group
+key map), store faults included: when the write over a session of fabric `mode.fab` is answered with
+success while no fail-safe is armed for that fabric, the store holds exactly the record the node
+holds for the fabric, and nothing else in the store changed. -/
+theorem acked_write_is_stored (cfg : Cfg) (n : Node) (sid : Nat) (mode : Mode) (op : Op)
+    (hw : isWriteOp op = true) (hna : armedFor n mode.fab = false)
+    (hok : (sessOp cfg n sid mode op).2 = .ok) :
+    ∃ f', kvF (sessOp cfg n sid mode op).1.kv mode.fab = some f' ∧
+          getFabric (sessOp cfg n sid mode op).1 mode.fab = some f' ∧
+          (sessOp cfg n sid mode op).1.kv = n.kv.putFabric f' := by
+  obtain ⟨f', hidx, hkv, hg⟩ := (sessOp_write_kv cfg n sid mode op hw).1 ⟨hok, hna⟩
+  refine ⟨f', ?_, hg, hkv⟩
+  rw [hkv, kvF_putFabric, hidx]; simp
 
-/-- the shape every fabric-scoped write has in the model (`acl.rs:306`, `groups.rs:178`, `noc.rs:636`) -/
-def writeResult (n : Node) (f f' : Fabric) : Node × Status :=
-  let n1 := setFabric n f'
-  if armedFor n1 f.idx then ok (markDeferred n1)
-  else match storeFabric n1 f' with
-    | (n, true) => ok n
-    | (n, false) => (n, .err "NoSpace")
+/-- ... and a write that is answered with an error - or deferred under the fail-safe of its fabric -
+leaves the store exactly as it was -/
+theorem failed_write_leaves_store (cfg : Cfg) (n : Node) (sid : Nat) (mode : Mode) (op : Op)
+    (hw : isWriteOp op = true)
+    (h : (sessOp cfg n sid mode op).2 ≠ .ok ∨ armedFor n mode.fab = true) :
+    (sessOp cfg n sid mode op).1.kv = n.kv := by
+  apply (sessOp_write_kv cfg n sid mode op hw).2
+  rintro ⟨h1, h2⟩
+  rcases h with h | h
+  · exact h h1
+  · rw [h2] at h; cases h
 
-theorem writeResult_ack (n : Node) (f f' : Fabric) (hidx : f'.idx = f.idx) (hget : getFabric n f.idx = some f) :
-    ((writeResult n f f').2 = .ok → armedFor n f.idx = false →
-        kvF (writeResult n f f').1.kv f.idx = some f' ∧ getFabric (writeResult n f f').1 f.idx = some f') ∧
-    ((writeResult n f f').2 ≠ .ok → (writeResult n f f').1.kv = n.kv) ∧
-    (writeResult n f f').1.hist.length ≤ n.hist.length + 1 := by
-  unfold writeResult
-  have harm : armedFor (setFabric n f') f.idx = armedFor n f.idx := rfl
-  have hg1 : getFabric (setFabric n f') f.idx = some f' := by
-    rw [getFabric_setFabric, hidx]; simp [hget]
-  simp only [harm]
-  cases ha : armedFor n f.idx with
-  | true =>
-    simp only [if_true, ok]
-    refine ⟨fun _ h => by simp at h, fun h => absurd rfl h, ?_⟩
-    rw [(markDeferred_fields (setFabric n f')).2.2.2.2]
-    show n.hist.length ≤ n.hist.length + 1
-    omega
-  | false =>
-    simp only [Bool.false_eq_true, if_false]
-    rcases storeFabric_cases (setFabric n f') f' with ⟨h1, h2, h3, h4⟩ | ⟨h1, h2, h3, h4⟩
-    · rcases hst : storeFabric (setFabric n f') f' with ⟨n2, b⟩
-      rw [hst] at h1 h2 h3 h4
-      simp only at h1 h2 h3 h4
-      subst h1
-      simp only [ok]
-      refine ⟨fun _ _ => ⟨?_, ?_⟩, fun h => absurd rfl h, ?_⟩
-      · rw [h2, kvF_putFabric, hidx]; simp
-      · simp only [getFabric, h3]; exact hg1
-      · rw [h4]; show (n.hist.length + 1) ≤ n.hist.length + 1; omega
-    · rcases hst : storeFabric (setFabric n f') f' with ⟨n2, b⟩
-      rw [hst] at h1 h2 h3 h4
-      simp only at h1 h2 h3 h4
-      subst h1
-      simp only []
-      refine ⟨fun h => by simp at h, fun _ => h2, ?_⟩
-      rw [h4]; show n.hist.length ≤ n.hist.length + 1; omega
+/-- **What the acknowledged record contains**: the record the node held before with exactly the
+written change applied - the new ACL entry appended, the group added, the label set -/
+theorem acked_write_content (cfg : Cfg) (n : Node) (sid : Nat) (mode : Mode) (op : Op)
+    (hw : isWriteOp op = true) (hna : armedFor n mode.fab = false)
+    (hok : (sessOp cfg n sid mode op).2 = .ok) :
+    ∃ f, getFabric n mode.fab = some f ∧ kvF (sessOp cfg n sid mode op).1.kv mode.fab = some (applyWrite op f) := by
+  obtain ⟨f, hg, hg'⟩ := sessOp_write_mem cfg n sid mode op hw hok
+  obtain ⟨f', hk, hgf, _⟩ := acked_write_is_stored cfg n sid mode op hw hna hok
+  refine ⟨f, hg, ?_⟩
+  rw [hk, ← hgf, hg']
 
-/-- **Write-before-acknowledge for ACL writes** (store faults included): when the write over a
-session of fabric `mode.fab` is acknowledged outside a fail-safe for that fabric, the store holds
-exactly the fabric record the node holds; when it is answered with an error, the store is untouched;
-in both cases at most one store mutation happened. -/
-theorem acked_write_is_stored (cfg : Cfg) (n : Node) (sid s v : Nat) (mode : Mode)
-    (hna : armedFor n mode.fab = false) :
-    ((sessOp cfg n sid mode (.acl s v)).2 = .ok →
-      ∃ f', kvF (sessOp cfg n sid mode (.acl s v)).1.kv mode.fab = some f' ∧
-            getFabric (sessOp cfg n sid mode (.acl s v)).1 mode.fab = some f') ∧
-    ((sessOp cfg n sid mode (.acl s v)).2 ≠ .ok → (sessOp cfg n sid mode (.acl s v)).1.kv = n.kv) ∧
-    (sessOp cfg n sid mode (.acl s v)).1.hist.length ≤ n.hist.length + 1 := by
-  simp only [sessOp]
-  split
-  · exact ⟨fun h => by simp at h, fun _ => rfl, Nat.le_succ _⟩
-  · cases hg : getFabric n mode.fab with
-    | none => exact ⟨fun h => by simp at h, fun _ => rfl, Nat.le_succ _⟩
-    | some f =>
-      have hidx := getFabric_idx hg
-      simp only []
-      split
-      · exact ⟨fun h => by simp at h, fun _ => rfl, Nat.le_succ _⟩
-      · have := writeResult_ack n f { f with acl := f.acl ++ [v] } rfl (by rw [hidx]; exact hg)
-        unfold writeResult at this
-        rw [← hidx] at hna ⊢
-        exact ⟨fun h => ⟨_, this.1 h hna⟩, this.2.1, this.2.2⟩
+example (f : Fabric) (s v : Nat) : (applyWrite (.acl s v) f).acl = f.acl ++ [v] ∧ (applyWrite (.label s v) f).label = v := ⟨rfl, rfl⟩
 
-/-- the same for the fabric label (fixed finding `C11-fabric-label-not-persisted`) -/
-theorem acked_label_is_stored (cfg : Cfg) (n : Node) (sid s v : Nat) (mode : Mode)
-    (hna : armedFor n mode.fab = false) :
-    ((sessOp cfg n sid mode (.label s v)).2 = .ok →
-      ∃ f', kvF (sessOp cfg n sid mode (.label s v)).1.kv mode.fab = some f' ∧
-            getFabric (sessOp cfg n sid mode (.label s v)).1 mode.fab = some f' ∧ f'.label = v) ∧
-    ((sessOp cfg n sid mode (.label s v)).2 ≠ .ok → (sessOp cfg n sid mode (.label s v)).1.kv = n.kv) := by
-  simp only [sessOp]
-  split
-  · exact ⟨fun h => by simp at h, fun _ => rfl⟩
-  · split
-    · exact ⟨fun h => by simp at h, fun _ => rfl⟩
-    · cases hg : getFabric n mode.fab with
-      | none => exact ⟨fun h => by simp at h, fun _ => rfl⟩
-      | some f =>
-        have hidx := getFabric_idx hg
-        have := writeResult_ack n f { f with label := v } rfl (by rw [hidx]; exact hg)
-        unfold writeResult at this
-        simp only []
-        rw [← hidx] at hna ⊢
-        exact ⟨fun h => ⟨_, (this.1 h hna).1, (this.1 h hna).2, rfl⟩, this.2.1⟩
+/-- **An acknowledged RemoveFabric has removed the key** (and the fabric from the table); one that is
+answered with an error left the fabric records and the networks of the store as they were -/
+theorem acked_removal_is_stored (cfg : Cfg) (n : Node) (sid s idx : Nat) (mode : Mode) :
+    ((sessOp cfg n sid mode (.rmfab s idx)).2 = .ok →
+      kvF (sessOp cfg n sid mode (.rmfab s idx)).1.kv idx = none ∧
+      (∀ i, i ≠ idx → kvF (sessOp cfg n sid mode (.rmfab s idx)).1.kv i = kvF n.kv i) ∧
+      (sessOp cfg n sid mode (.rmfab s idx)).1.kv.nets = n.kv.nets) ∧
+    ((sessOp cfg n sid mode (.rmfab s idx)).2 ≠ .ok → KV.Same (sessOp cfg n sid mode (.rmfab s idx)).1.kv n.kv) := by
+  have ⟨h1, h2⟩ := sessOp_rmfab_kv cfg n sid s idx mode
+  refine ⟨fun hok => ?_, h2⟩
+  have hs := h1 hok
+  refine ⟨by rw [hs.1 idx, kvF_delFabric]; simp, fun i hi => by rw [hs.1 i, kvF_delFabric]; simp [hi], hs.2⟩
 
+/-- **An acknowledged CommissioningComplete has stored the fabric record and the networks**: the store
+is the store before with the record the node holds for the fabric put into it and the networks of the
+node stored; one that is answered with an error - partial commit excluded - left the fabric records
+and the networks of the store as they were -/
+theorem acked_complete_is_stored (cfg : Cfg) (n : Node) (sid s : Nat) (mode : Mode) :
+    ((sessOp cfg n sid mode (.complete s)).2 = .ok →
+      ∃ f', getFabric (sessOp cfg n sid mode (.complete s)).1 mode.fab = some f' ∧
+        kvF (sessOp cfg n sid mode (.complete s)).1.kv mode.fab = some f' ∧
+        (sessOp cfg n sid mode (.complete s)).1.kv.nets =
+          some ((sessOp cfg n sid mode (.complete s)).1.nets, (sessOp cfg n sid mode (.complete s)).1.managed) ∧
+        (∀ i, i ≠ mode.fab → kvF (sessOp cfg n sid mode (.complete s)).1.kv i = kvF n.kv i)) ∧
+    ((sessOp cfg n sid mode (.complete s)).2 ≠ .ok → partialCommit cfg n sid mode s = false →
+      KV.Same (sessOp cfg n sid mode (.complete s)).1.kv n.kv) := by
+  have ⟨h1, h2⟩ := sessOp_complete_kv cfg n sid s mode
+  refine ⟨fun hok => ?_, h2⟩
+  obtain ⟨f', hidx, hg, hkv⟩ := h1 hok
+  refine ⟨f', hg, ?_, by rw [hkv], fun i hi => ?_⟩
+  · rw [hkv]
+    show kvF (n.kv.putFabric f') mode.fab = some f'
+    rw [kvF_putFabric, hidx]; simp
+  · rw [hkv]
+    show kvF (n.kv.putFabric f') i = kvF n.kv i
+    rw [kvF_putFabric, hidx]; simp [hi]
+
+/-- the hypotheses are satisfiable: an acknowledged label write, an acknowledged group write -/
 example : ∃ (n : Node) (mode : Mode), armedFor n mode.fab = false ∧
-    (sessOp {} n 0 mode (.label 0 7)).2 = .ok :=
+    (sessOp {} n 0 mode (.label 0 7)).2 = .ok ∧ (sessOp {} n 0 mode (.grp 0 3)).2 = .ok :=
   ⟨{ fabrics := [{ idx := 1, gen := 1, ca := 1, fid := 1, node := 1, ser := 1, acl := [], grp := [], label := 0 }] },
-   .case 1, by decide, by decide⟩
+   .case 1, by decide, by decide, by decide⟩
 
 /-! ## factory reset -/
-
-theorem delFabricKeys_spec (hi : Nat) : ∀ (fuel i : Nat) (cur : KV) (acc : List KV),
-    (delFabricKeys hi i fuel cur acc).1.fabs = cur.fabs.filter (fun f => !(decide (i ≤ f.idx) && decide (f.idx < min hi (i + fuel)))) ∧
-    (delFabricKeys hi i fuel cur acc).1.nets = cur.nets ∧ (delFabricKeys hi i fuel cur acc).1.resum = cur.resum := by
-  intro fuel
-  induction fuel with
-  | zero =>
-    intro i cur acc
-    refine ⟨?_, by simp [delFabricKeys], by simp [delFabricKeys]⟩
-    simp only [delFabricKeys]
-    rw [eq_comm, List.filter_eq_self]
-    intro f _
-    simp; omega
-  | succ fuel ih =>
-    intro i cur acc
-    by_cases hge : i ≥ hi
-    · refine ⟨?_, by simp [delFabricKeys, hge], by simp [delFabricKeys, hge]⟩
-      simp only [delFabricKeys, hge, if_true]
-      rw [eq_comm, List.filter_eq_self]
-      intro f _
-      simp; omega
-    · by_cases hk : cur.hasFabric i = true
-      · have ⟨h1, h2, h3⟩ := ih (i + 1) (cur.delFabric i) (cur.delFabric i :: acc)
-        have heq : delFabricKeys hi i (fuel + 1) cur acc =
-            delFabricKeys hi (i + 1) fuel (cur.delFabric i) (cur.delFabric i :: acc) := by
-          simp [delFabricKeys, hge, hk]
-        rw [heq]
-        refine ⟨?_, by rw [h2]; rfl, by rw [h3]; rfl⟩
-        rw [h1]
-        simp only [KV.delFabric, List.filter_filter]
-        apply List.filter_congr
-        intro f _
-        by_cases hfi : f.idx = i
-        · have : ¬ (i ≥ hi) := hge
-          simp [hfi]; omega
-        · rw [Bool.eq_iff_iff]
-          simp [hfi]
-          constructor <;> intro h <;> omega
-      · have ⟨h1, h2, h3⟩ := ih (i + 1) cur acc
-        have heq : delFabricKeys hi i (fuel + 1) cur acc = delFabricKeys hi (i + 1) fuel cur acc := by
-          simp [delFabricKeys, hge, hk]
-        rw [heq]
-        refine ⟨?_, h2, h3⟩
-        rw [h1]
-        apply List.filter_congr
-        intro f hf
-        have hne : f.idx ≠ i := by
-          intro he
-          apply hk
-          unfold KV.hasFabric
-          rw [List.any_eq_true]
-          exact ⟨f, hf, by simpa using he⟩
-        rw [Bool.eq_iff_iff]
-        simp
-        constructor <;> intro h <;> omega
 
 /-- **Factory reset leaves nothing behind**: without a store fault, and with every stored fabric
 index in `1..255` (the key range `Fabrics::reset_persist` walks), the fabric keys, the network key
@@ -250,39 +190,202 @@ theorem factory_reset_empties (cfg : Cfg) (n : Node) (hf : n.failIn = 0)
     (step cfg n .freset).1.kv.fabs = [] ∧ (step cfg n .freset).1.kv.nets = none ∧
     (step cfg n .freset).1.kv.resum = .absent ∧
     (step cfg n .freset).1.fabrics = [] ∧ (step cfg n .freset).1.resum = [] ∧ (step cfg n .freset).1.nets = [] := by
-  have hempty : (delFabricKeys 256 1 256 n.kv n.hist).1.fabs = [] := by
-    rw [(delFabricKeys_spec 256 256 1 n.kv n.hist).1, List.filter_eq_nil_iff]
-    intro f hfm
-    have := hrange f hfm
-    simp; omega
-  have hn := (delFabricKeys_spec 256 256 1 n.kv n.hist).2.1
-  have hr := (delFabricKeys_spec 256 256 1 n.kv n.hist).2.2
-  simp only [step, isSessOp, hf, ne_eq, not_true_eq_false, if_false]
-  rcases hd : delFabricKeys 256 1 256 n.kv n.hist with ⟨kv1, hist1⟩
-  rw [hd] at hempty hn hr
-  simp only at hempty hn hr
-  simp only [ok, kvCommit]
-  refine ⟨?_, ?_, ?_, ?_, ?_, ?_, ?_⟩
-  all_goals (repeat' split) <;> simp_all
+  have ⟨h1, _, h3, _, h5, h6, h7, _⟩ := factoryReset_mem n
+  have ⟨hk, hst⟩ := factoryReset_store n hf hrange
+  exact ⟨hst, hk, h6, h5, h1, h3, h7⟩
+
+/-- a factory reset that IS hit by a store fault answers the error and still leaves nothing in
+memory (no fabric, no resumption record, no network) and neither the resumption nor the network key
+in the store - fabric keys may stay (from the one whose removal failed on) -/
+theorem faulty_factory_reset (cfg : Cfg) (n : Node) :
+    (step cfg n .freset).1.fabrics = [] ∧ (step cfg n .freset).1.resum = [] ∧ (step cfg n .freset).1.nets = [] ∧
+    (step cfg n .freset).1.kv.resum = .absent ∧ (step cfg n .freset).1.kv.nets = none := by
+  have ⟨h1, _, h3, _, h5, h6, h7, _⟩ := factoryReset_mem n
+  exact ⟨h1, h3, h7, h5, h6⟩
 
 example : ∃ n : Node, n.failIn = 0 ∧ (∀ f ∈ n.kv.fabs, 1 ≤ f.idx ∧ f.idx ≤ 255) ∧ n.kv.fabs ≠ [] :=
   ⟨{ kv := { fabs := [{ idx := 1, gen := 1, ca := 1, fid := 1, node := 1, ser := 1, acl := [], grp := [], label := 0 }] } },
    rfl, by decide, by decide⟩
 
-/-! ## every crash point -/
+/-! ## the committed view -/
+
+/-- **At every operation boundary the store holds exactly the committed view**: after EVERY history
+without factory reset and without partial commit - any commands, any sessions, store faults at any
+write, restarts, earlier crashes - the fabric record of every index and the network list in the
+store are those of `committedView`: every change that was acknowledged is there, nothing else is. -/
+theorem boundary_store_is_committed (cfg : Cfg) (ops : List Op) (hno : Op.freset ∉ ops)
+    (hpc : noPartialCommit cfg {} ops = true) :
+    View.Same (viewOf (run cfg {} ops).kv) (committedView cfg ops) :=
+  store_is_committed cfg ops hno hpc
+
+/-- a restart from a store comes up with the view of that store -/
+theorem restart_shows_view (m : Node) (kv : KV) (hist : List KV) (C : View) (h : View.Same (viewOf kv) C) :
+    (∀ i, getFabric (restartFrom m kv hist) i = C.get i) ∧
+    ((restartFrom m kv hist).nets, (restartFrom m kv hist).managed) = C.netsD ∧
+    (restartFrom m kv hist).kv.nets = C.nets ∧
+    (restartFrom m kv hist).fs = none ∧ (restartFrom m kv hist).sessions = [] := by
+  have ⟨hag, h2, _, h4, h5, h6, h7⟩ := restart_reads_store m kv hist
+  refine ⟨fun i => ?_, ?_, by rw [h7]; exact h.2, h4, h5⟩
+  · rw [← h.1 i]
+    simp only [getFabric, h2, viewOf_get, kvF]
+  · rw [hag.2]
+    unfold kvNets View.netsD
+    rw [h7, ← h.2]
+    rfl
+
+/-- **A restart comes up with every acknowledged change and with nothing else**: after any history
+(without factory reset / partial commit) the restarted node has, for every fabric index, exactly the
+record of the committed view, exactly its networks, no fail-safe and no session. -/
+theorem restart_comes_up_committed (cfg : Cfg) (ops : List Op) (hno : Op.freset ∉ ops)
+    (hpc : noPartialCommit cfg {} ops = true) :
+    (∀ i, getFabric (step cfg (run cfg {} ops) .restart).1 i = (committedView cfg ops).get i) ∧
+    ((step cfg (run cfg {} ops) .restart).1.nets, (step cfg (run cfg {} ops) .restart).1.managed) =
+      (committedView cfg ops).netsD ∧
+    (step cfg (run cfg {} ops) .restart).1.fs = none ∧ (step cfg (run cfg {} ops) .restart).1.sessions = [] := by
+  have h := boundary_store_is_committed cfg ops hno hpc
+  have ⟨r1, r2, _, r4, r5⟩ := restart_shows_view (run cfg {} ops) (run cfg {} ops).kv (run cfg {} ops).hist _ h
+  exact ⟨r1, r2, r4, r5⟩
+
+/-- (decidable form of `twoWriteComplete`) the CommissioningComplete `op` issued in state `n` performs
+two store mutations -/
+def isTwoWriteComplete (cfg : Cfg) (n : Node) (op : Op) : Bool :=
+  match op with
+  | .complete s => decide ((checkTimeouts cfg n (some s)).1.hist.length + 2 ≤ (step cfg n op).1.hist.length)
+  | _ => false
+
+theorem isTwoWriteComplete_of (cfg : Cfg) (n : Node) (op : Op) (h : twoWriteComplete cfg n op) :
+    isTwoWriteComplete cfg n op = true := by
+  obtain ⟨s, rfl, hlen⟩ := h
+  simp only [isTwoWriteComplete, decide_eq_true_eq]; exact hlen
+
+/-- **Every crash point, in order.**  Take a history that only grows the store history (no factory
+reset; no earlier crash / reset-before-start-up, which rewind it) and has no partial commit.  The
+node that stops after the `k`-th store mutation and restarts comes up with the committed view of
+`ops.take m`, where `m` is the LONGEST prefix all of whose store mutations are among the first `k`
+(`muts m ≤ k < muts (m+1)`): every change acknowledged before that point is there, nothing of a
+change that was not.  Excluded are only the crash points strictly inside a CommissioningComplete that
+performs two store mutations (`k ≠ muts m` and operation `m` is such a one). -/
+theorem crash_comes_up_committed (cfg : Cfg) (ops : List Op) (hg : growOnly ops)
+    (hpc : noPartialCommit cfg {} ops = true) (m k : Nat) (hm : m ≤ ops.length)
+    (hlo : muts cfg ops m ≤ k) (hhi : m < ops.length → k < muts cfg ops (m + 1))
+    (hmid : k = muts cfg ops m ∨ ∀ op, ops[m]? = some op → isTwoWriteComplete cfg (run cfg {} (ops.take m)) op = false) :
+    (∀ i, getFabric (step cfg (run cfg {} ops) (.crash k)).1 i = (committedView cfg (ops.take m)).get i) ∧
+    ((step cfg (run cfg {} ops) (.crash k)).1.nets, (step cfg (run cfg {} ops) (.crash k)).1.managed) =
+      (committedView cfg (ops.take m)).netsD ∧
+    (step cfg (run cfg {} ops) (.crash k)).1.fs = none ∧ (step cfg (run cfg {} ops) (.crash k)).1.sessions = [] := by
+  have hpos := positional cfg ops hg m k hm hlo hhi (by
+    rcases hmid with h | h
+    · exact Or.inl h
+    · exact Or.inr (fun op hop htw => by
+        have := h op hop
+        rw [isTwoWriteComplete_of cfg _ op htw] at this
+        exact absurd this (by simp)))
+  -- the boundary after `m` operations holds the committed view of that prefix
+  have hsplit : ops = ops.take m ++ ops.drop m := (List.take_append_drop m ops).symm
+  have hno : Op.freset ∉ ops.take m := fun hmem => (hg _ (List.mem_of_mem_take hmem)).2 rfl
+  have hpc' : noPartialCommit cfg {} (ops.take m) = true := by
+    rw [hsplit, noPartialCommit_append, Bool.and_eq_true] at hpc
+    exact hpc.1
+  have hC := boundary_store_is_committed cfg (ops.take m) hno hpc'
+  have hview : View.Same (viewOf (histAt (run cfg {} ops).hist k)) (committedView cfg (ops.take m)) :=
+    (viewOf_same.mp hpos).trans hC
+  have hstep : (step cfg (run cfg {} ops) (.crash k)).1 =
+      restartFrom (run cfg {} ops) (histAt (run cfg {} ops).hist k)
+        ((run cfg {} ops).hist.drop ((run cfg {} ops).hist.length - min k (run cfg {} ops).hist.length)) := rfl
+  rw [hstep]
+  have ⟨r1, r2, _, r4, r5⟩ := restart_shows_view (run cfg {} ops) (histAt (run cfg {} ops).hist k)
+    ((run cfg {} ops).hist.drop ((run cfg {} ops).hist.length - min k (run cfg {} ops).hist.length)) _ hview
+  exact ⟨r1, r2, r4, r5⟩
+
+/-! ### the theorems at work, and what they exclude -/
+
+/-- a history with two successful commissionings: commissioning of fabric 1 (networks `[3]`), an
+acknowledged ACL write, a label write that hits a store fault (answered with an error), an
+acknowledged group write, a second commissioning (fabric 2), RemoveFabric of fabric 1 -/
+def demoOps : List Op :=
+  [.boot, .pase, .arm 0 60, .net 0 3, .csr 0 false, .root 0 2, .addnoc 0 2 2 10 100 1, .caseEst 1 100 1,
+   .complete 1, .acl 1 200, .kvfail 1, .label 1 7, .grp 1 5,
+   .openW 1, .pase, .arm 2 60, .csr 2 false, .root 2 1, .addnoc 2 1 6 11 101 2, .caseEst 2 101 2, .complete 3,
+   .rmfab 3 1]
+
+/-- the hypotheses hold for it, it contains acknowledged CommissioningCompletes, and its committed
+view is: fabric 1 removed, fabric 2 committed, the networks of the first commissioning -/
+example :
+    growOnly demoOps ∧ noPartialCommit {} {} demoOps = true ∧
+    ((committedView {} demoOps).fabs.map (fun f => (f.idx, f.node, f.acl, f.grp, f.label))) = [(2, 11, [101], [], 0)] ∧
+    (committedView {} demoOps).nets = some ([3], true) ∧
+    -- after 12 operations: the ACL write is committed, the label write that was answered with an error is not
+    ((committedView {} (demoOps.take 12)).fabs.map (fun f => (f.idx, f.acl, f.grp, f.label))) = [(1, [100, 200], [], 0)] ∧
+    -- after 13: the acknowledged group write commits the record the node holds (see `dirty_write_is_flushed`)
+    ((committedView {} (demoOps.take 13)).fabs.map (fun f => (f.idx, f.acl, f.grp, f.label))) = [(1, [100, 200], [5], 7)] := by
+  refine ⟨by decide, by decide, by decide, by decide, by decide, by decide⟩
+
+/-- crash points of `demoOps`: the store mutations are counted per prefix (`muts`); the ACL write of
+operation 10 is the third mutation, operations 11 (`kvfail`) and 12 (the label write that fails) make
+none: stopping after mutation 3 the node comes up with the committed view of the first 12 operations
+(= that of the first 10), whatever was acknowledged later is not there -/
+example :
+    muts {} demoOps 9 = 2 ∧ muts {} demoOps 10 = 3 ∧ muts {} demoOps 11 = 3 ∧ muts {} demoOps 12 = 3 ∧
+    muts {} demoOps 13 = 4 ∧
+    (∀ i, getFabric (step {} (run {} {} demoOps) (.crash 3)).1 i = (committedView {} (demoOps.take 12)).get i) := by
+  refine ⟨by decide, by decide, by decide, by decide, by decide, ?_⟩
+  exact (crash_comes_up_committed {} demoOps (by decide) (by decide) 12 3 (by decide) (by decide)
+    (fun _ => by decide) (Or.inl (by decide))).1
+
+/-- **Excluded, 1: the partial commit** (what is left of the open finding `C11-complete-store-failure`):
+fabric 1 is committed with node id 10; under a new fail-safe UpdateNOC stages node id 11; the SECOND
+write of CommissioningComplete fails, the command is answered with an error - the committed view
+still says 10 - but the store holds the record with 11 and a restart comes up with it -/
+def partialOps : List Op :=
+  [.boot, .pase, .arm 0 60, .csr 0 false, .root 0 2, .addnoc 0 2 2 10 100 1,
+   .caseEst 1 101 1, .complete 1, .arm 1 60, .net 1 3, .csr 1 true, .updnoc 1 11 2, .kvfail 2, .complete 1]
+
+theorem partial_commit_witness :
+    noPartialCommit {} {} partialOps = false ∧
+    (step {} (run {} {} partialOps.dropLast) (.complete 1)).2 = .err "NoSpace" ∧
+    ((committedView {} partialOps).fabs.map (·.node)) = [10] ∧
+    ((step {} (run {} {} partialOps) .restart).1.fabrics.map (·.node)) = [11] := by
+  refine ⟨by decide, by decide, by decide, by decide⟩
+
+/-- **Inside, since the repair 2021931**: the same failure for a fabric ADDED under the fail-safe (the
+example of the audit: `… kvfail 2, complete 1 ⇒ NoSpace, restart`): no partial commit, the committed
+view has no fabric, and the restarted node has none -/
+example :
+    let ops : List Op := [.boot, .pase, .arm 0 60, .net 0 3, .csr 0 false, .root 0 2, .addnoc 0 2 2 10 100 1,
+      .caseEst 1 101 1, .kvfail 2, .complete 1]
+    growOnly ops ∧ noPartialCommit {} {} ops = true ∧ (committedView {} ops).fabs = [] ∧
+    (step {} (run {} {} ops) .restart).1.fabrics = [] ∧ (run {} {} ops).hist.length = 2 := by
+  refine ⟨by decide, by decide, by decide, by decide, by decide⟩
+
+/-- **What the committed record is**: the record the node holds when it acknowledges.  An ACL write
+that hits a store fault is answered with an error and is not committed (a restart right then does
+not show 201) - but it stays in the node's record, and the next acknowledged write of the fabric
+stores and commits the record with it. -/
+theorem dirty_write_is_flushed :
+    let ops : List Op := [.boot, .pase, .arm 0 60, .csr 0 false, .root 0 2, .addnoc 0 2 2 10 100 1,
+      .caseEst 1 100 1, .complete 1, .kvfail 1, .acl 1 201]
+    (step {} (run {} {} ops.dropLast) (.acl 1 201)).2 = .err "NoSpace" ∧
+    ((committedView {} ops).fabs.map (·.acl)) = [[100]] ∧
+    ((committedView {} (ops ++ [.acl 1 202])).fabs.map (·.acl)) = [[100, 201, 202]] := by
+  refine ⟨by decide, by decide, by decide⟩
+
+/-! ## every crash point of ANY history (set-level: earlier crashes / resets inside) -/
 
 /-- the store at an operation boundary of the history -/
 def Boundary (cfg : Cfg) (all : List Op) (kv : KV) : Prop :=
   ∃ pre, pre <+: all ∧ KV.Same kv (run cfg {} pre).kv
 
-/-- the `complete s` issued in state `n` performs both its writes -/
+/-- the `complete s` issued in state `n` performs two store mutations: the fabric record and the
+networks, or - when the networks cannot be stored - the record of a fabric added under the fail-safe
+and its removal -/
 def twoWrites (cfg : Cfg) (n : Node) (s : Nat) : Bool :=
   decide ((checkTimeouts cfg n (some s)).1.hist.length + 2 ≤ (step cfg n (.complete s)).1.hist.length)
 
 /-- the store between the two writes of a CommissioningComplete of the history: the store at the
-boundary before it with one fabric record written -/
+boundary before it with the record written that the node holds for the fabric of the completing session -/
 def MidCommit (cfg : Cfg) (all : List Op) (kv : KV) : Prop :=
   ∃ pre s f, (pre ++ [.complete s]) <+: all ∧ KV.Same kv ((run cfg {} pre).kv.putFabric f) ∧
+    (∃ mode, cmdMode cfg (run cfg {} pre) s = some mode ∧ getFabric (proOf cfg (run cfg {} pre) s) mode.fab = some f) ∧
     twoWrites cfg (run cfg {} pre) s = true
 
 theorem crash_aux (cfg : Cfg) (all : List Op) (hno : Op.freset ∉ all) :
@@ -307,12 +410,12 @@ theorem crash_aux (cfg : Cfg) (all : List Op) (hno : Op.freset ∉ all) :
     rw [hrun] at hk
     have hpre : pre <+: all := ⟨op :: r, hp⟩
     have hpre' : (pre ++ [op]) <+: all := ⟨r, hp'⟩
-    rcases step_snaps cfg (run cfg {} pre) op hop kv hk with h1 | h1 | h1 | ⟨s, hs, ⟨f, h1⟩, hlen⟩
+    rcases step_snaps cfg (run cfg {} pre) op hop kv hk with h1 | h1 | h1 | ⟨s, hs, ⟨f, s1, hg1, hgf, h1⟩, hlen⟩
     · exact h kv h1
     · exact Or.inl ⟨pre, hpre, h1⟩
     · exact Or.inl ⟨pre ++ [op], hpre', by rw [hrun]; exact h1⟩
     · subst hs
-      exact Or.inr ⟨pre, s, f, hpre', h1, by simp [twoWrites, hlen]⟩
+      exact Or.inr ⟨pre, s, f, hpre', h1, ⟨s1.mode, by unfold cmdMode proOf; rw [hg1]; rfl, hgf⟩, by simp [twoWrites, hlen]⟩
 
 /-- **Every crash point.**  For every history without factory reset - any commands, any sessions,
 store faults at any write, restarts and earlier crashes included - every element of the store
@@ -334,6 +437,25 @@ theorem restart_from_boundary (cfg : Cfg) (ops : List Op) (n : Node) (kv : KV) (
   refine ⟨pre, hp, fun i => ?_, by rw [h7]; exact hs.2⟩
   rw [← hs.1 i]
   simp only [getFabric, h2, kvF]
+
+/-- ... so every crash point of ANY history without factory reset / partial commit - also one with
+earlier crashes, reset-before-start-up, recovery resets inside - holds the committed view of SOME
+prefix of the history, or is the state between the two store mutations of a CommissioningComplete -/
+theorem crash_store_is_some_committed_view (cfg : Cfg) (ops : List Op) (hno : Op.freset ∉ ops)
+    (hpc : noPartialCommit cfg {} ops = true) :
+    ∀ kv ∈ (run cfg {} ops).hist,
+      (∃ pre, pre <+: ops ∧ View.Same (viewOf kv) (committedView cfg pre)) ∨ MidCommit cfg ops kv := by
+  intro kv hk
+  rcases crash_prefix_or_mid_commit cfg ops hno kv hk with ⟨pre, hp, hs⟩ | h
+  · left
+    refine ⟨pre, hp, (viewOf_same.mp hs).trans ?_⟩
+    obtain ⟨rest, hr⟩ := hp
+    have hno' : Op.freset ∉ pre := fun hm => hno (by rw [← hr]; exact List.mem_append_left _ hm)
+    have hpc' : noPartialCommit cfg {} pre = true := by
+      rw [← hr, noPartialCommit_append, Bool.and_eq_true] at hpc
+      exact hpc.1
+    exact boundary_store_is_committed cfg pre hno' hpc'
+  · exact Or.inr h
 
 /-- all prefixes of a list -/
 def prefixes : List Op → List (List Op)
@@ -357,38 +479,31 @@ theorem mem_prefixes : ∀ (l p : List Op), p <+: l → p ∈ prefixes l := by
       simp only [prefixes, List.mem_cons, List.mem_map]
       exact Or.inr ⟨ys, ih ys hys, rfl⟩
 
-/-- decidable, on histories: some CommissioningComplete of the history performs both its writes -/
-def hasTwoWriteComplete (cfg : Cfg) (ops : List Op) : Bool :=
-  (prefixes ops).any (fun p =>
-    match p.reverse with
-    | .complete s :: r => twoWrites cfg (run cfg {} r.reverse) s
-    | _ => false)
-
-/-- **The statement of `C11_full_crash_prefix` under its precise exclusion**: in a history none of
-whose CommissioningCompletes performs both writes (none at all, or a store fault stops them), every
-crash point is an operation boundary. -/
-theorem crash_prefix_single_write (cfg : Cfg) (ops : List Op) (hno : Op.freset ∉ ops)
-    (hex : hasTwoWriteComplete cfg ops = false) :
-    ∀ kv ∈ (run cfg {} ops).hist, Boundary cfg ops kv := by
-  intro kv hk
-  rcases crash_prefix_or_mid_commit cfg ops hno kv hk with h | ⟨pre, s, f, hp, _, htw⟩
-  · exact h
-  · exfalso
-    have hin := mem_prefixes ops _ hp
-    unfold hasTwoWriteComplete at hex
-    rw [List.any_eq_false] at hex
-    have := hex _ hin
-    simp [htw] at this
-
-/-- the full crash-prefix statement: EVERY element of the store history is a boundary store.
-FALSE of the code: CommissioningComplete performs two writes (open finding
-`C11-complete-crash-between-writes`). -/
-def C11_full_crash_prefix : Prop :=
-  ∀ (cfg : Cfg) (ops : List Op), Op.freset ∉ ops → ∀ kv ∈ (run cfg {} ops).hist, Boundary cfg ops kv
+/-- the full statement: EVERY crash point comes up with the committed view of the longest prefix
+whose store mutations precede it - without the exclusion of the points inside a
+CommissioningComplete.  FALSE of the code: CommissioningComplete performs two store mutations (open
+finding `C11-complete-crash-between-writes`). -/
+def C11_full_crash_committed : Prop :=
+  ∀ (cfg : Cfg) (ops : List Op), growOnly ops → noPartialCommit cfg {} ops = true →
+    ∀ m k, m ≤ ops.length → muts cfg ops m ≤ k → (m < ops.length → k < muts cfg ops (m + 1)) →
+      View.Same (viewOf (histAt (run cfg {} ops).hist k)) (committedView cfg (ops.take m))
 
 /-- the replay of the finding: `… net 0 3 … complete 1` and the store after its first write -/
 def witnessOps : List Op :=
   [.boot, .pase, .arm 0 60, .net 0 3, .csr 0 false, .root 0 2, .addnoc 0 2 2 10 100 1, .caseEst 1 101 1, .complete 1]
+
+theorem C11_full_crash_committed_false : ¬ C11_full_crash_committed := by
+  intro h
+  -- 8 operations without a store mutation, then CommissioningComplete with two: the crash point 1
+  have := h {} witnessOps (by decide) (by decide) 8 1 (by decide) (by decide) (fun _ => by decide)
+  have h1 := this.1 1
+  revert h1
+  decide
+
+/-- the weaker, older form of the full statement ("every crash store is SOME boundary store") is
+refuted by the same witness -/
+def C11_full_crash_prefix : Prop :=
+  ∀ (cfg : Cfg) (ops : List Op), Op.freset ∉ ops → ∀ kv ∈ (run cfg {} ops).hist, Boundary cfg ops kv
 
 def witnessKv : KV :=
   match (run {} {} witnessOps).hist with
@@ -405,16 +520,51 @@ theorem C11_full_crash_prefix_false : ¬ C11_full_crash_prefix := by
     decide
   exact key pre hin ⟨by rw [hs.1 1], hs.2⟩
 
-/-- the witness is recognised by the decidable exclusion -/
-example : hasTwoWriteComplete {} witnessOps = true := by decide
+/-- the crash points of the witness that are NOT inside the CommissioningComplete are covered: it is
+a history with an acknowledged commissioning that satisfies the hypotheses of `crash_comes_up_committed` -/
+example : growOnly witnessOps ∧ noPartialCommit {} {} witnessOps = true ∧
+    (step {} (run {} {} witnessOps.dropLast) (.complete 1)).2 = .ok ∧
+    muts {} witnessOps 8 = 0 ∧ muts {} witnessOps 9 = 2 ∧
+    isTwoWriteComplete {} (run {} {} (witnessOps.take 8)) (.complete 1) = true := by
+  refine ⟨by decide, by decide, by decide, by decide, by decide, by decide⟩
 
-/-- the exclusion is satisfiable by a history with a commissioning that reaches the store: the second
-write of CommissioningComplete fails (the first one is then a boundary store: the fabric IS stored
-when the command returns - open finding `C11-complete-store-failure`), a restart follows -/
+/-! ## a CommissioningComplete that is answered with an error -/
+
+/-- **Nothing of an unacknowledged commissioning of a NEW fabric** (the repaired half of
+`C11-complete-store-failure`): when a CommissioningComplete for a fabric added under the fail-safe is
+answered with an error - whichever of its two writes failed - a restart from the store it leaves
+behind comes up with exactly the fabrics and networks that were stored before the command. (When
+the networks cannot be stored, the fabric record just written is removed again; the store between
+these two mutations is a `MidCommit` crash point as before.) -/
+theorem failed_complete_added_fabric_restart (cfg : Cfg) (n m : Node) (sid s : Nat) (mode : Mode) (a : Armed)
+    (hfs : n.fs = some a) (hadd : a.flags.addNoc = true) (hnone : kvF n.kv mode.fab = none)
+    (hfail : (sessOp cfg n sid mode (.complete s)).2 ≠ .ok) (hist : List KV) :
+    (∀ i, getFabric (restartFrom m (sessOp cfg n sid mode (.complete s)).1.kv hist) i = kvF n.kv i) ∧
+    (restartFrom m (sessOp cfg n sid mode (.complete s)).1.kv hist).kv.nets = n.kv.nets := by
+  have hs := failed_complete_of_added_fabric_undone cfg n sid s mode a hfs hadd hnone hfail
+  have ⟨_, h2, _, _, _, _, h7⟩ := restart_reads_store m (sessOp cfg n sid mode (.complete s)).1.kv hist
+  refine ⟨fun i => ?_, by rw [h7]; exact hs.2⟩
+  rw [← hs.1 i]
+  simp only [getFabric, h2, kvF]
+
+/-- the replay of the repaired finding: `… net 0 3 … kvfail 2, complete 1 ⇒ NoSpace` (two store
+mutations: the fabric record and its removal), `restart` ⇒ no fabric, no networks -/
+example :
+    let ops : List Op := [.boot, .pase, .arm 0 60, .net 0 3, .csr 0 false, .root 0 2, .addnoc 0 2 2 10 100 1,
+      .caseEst 1 101 1, .kvfail 2, .complete 1, .restart]
+    Op.freset ∉ ops ∧ (run {} {} ops).hist.length = 2 ∧ (run {} {} ops).fabrics = [] ∧ (run {} {} ops).nets = [] := by
+  refine ⟨by decide, by decide, by decide, by decide⟩
+
+/-- what is left of `C11-complete-store-failure` (open): the fabric EXISTED before (UpdateNOC under
+the fail-safe): the second write fails, the command answers an error, but the store holds the new
+record - the old one is overwritten and cannot be put back - and a restart comes up with the
+identity of the unacknowledged update -/
 example :
     let ops : List Op := [.boot, .pase, .arm 0 60, .csr 0 false, .root 0 2, .addnoc 0 2 2 10 100 1,
-      .caseEst 1 101 1, .kvfail 2, .complete 1, .restart]
-    Op.freset ∉ ops ∧ hasTwoWriteComplete {} ops = false ∧ (run {} {} ops).hist.length = 1 := by
+      .caseEst 1 101 1, .complete 1, .arm 1 60, .net 1 3, .csr 1 true, .updnoc 1 11 2, .kvfail 2, .complete 1]
+    (step {} (run {} {} ops.dropLast) (.complete 1)).2 = .err "NoSpace" ∧
+    ((run {} {} (ops ++ [.restart])).fabrics.map (·.node)) = [11] ∧
+    ((run {} {} ops.dropLast).kv.fabs.map (·.node)) = [10] := by
   refine ⟨by decide, by decide, by decide⟩
 
 end C11
